@@ -146,18 +146,20 @@ Proof.
     destruct (sk_read_enough (b_ps s) (b_err s) (n - rfr)) as (ps' & E & C).
     { unfold total_len. unfold n in *. lia. }
     rewrite E. destruct (Z.ltb_spec (n - rfr) 0); [lia|].
-    eexists. split; [|cbn [b_cd b_err b_remain b_partial b_ps]; splits].
-    + f_equal. f_equal; [lia|].
-      rewrite ztake_app_ge by lia. rewrite Hfull, ztake_all by lia. reflexivity.
-    + unfold wrap. rewrite !Z.mod_small; unfold n in *; lia.
+    eexists. split.
+    { f_equal. f_equal; [lia|]. rewrite ztake_app_ge by lia. rewrite Hfull, ztake_all by lia. reflexivity. }
+    cbn [b_cd b_err b_remain b_partial b_ps]. splits; try reflexivity.
+    + rewrite (wrap_small (b_remain s - rfr)) by (unfold n in *; lia).
+      rewrite wrap_small by (unfold n in *; lia). lia.
     + rewrite Hfull, zdrop_all by lia. cbn [app]. rewrite C.
       rewrite zdrop_app_ge by lia. f_equal. lia.
     + rewrite C. f_equal. lia.
   - (* served from the partial body alone *)
     assert (Hrn : rfr = n) by lia.
-    eexists. split; [|cbn [b_cd b_err b_remain b_partial b_ps]; splits].
-    + rewrite Hrn. f_equal. f_equal. rewrite ztake_app_le by (unfold rfr in *; lia). reflexivity.
-    + rewrite Hrn. unfold wrap. rewrite Z.mod_small; unfold n in *; lia.
+    eexists. split.
+    { rewrite Hrn. f_equal. f_equal. rewrite ztake_app_le by (unfold rfr in *; lia). reflexivity. }
+    cbn [b_cd b_err b_remain b_partial b_ps]. splits; try reflexivity.
+    + rewrite Hrn. rewrite wrap_small by (unfold n in *; lia). reflexivity.
     + rewrite Hrn. rewrite zdrop_app_le by (unfold rfr in *; lia). reflexivity.
     + rewrite zdrop_nonpos; [reflexivity|]. unfold rfr in *. lia.
 Qed.
@@ -189,7 +191,7 @@ Lemma brs_run_len s : forall counts,
 Proof.
   intros counts. revert s. induction counts as [|c t IH]; intros s Hcd Hall Hr Hw.
   - cbn. rewrite Z.min_l by lia. rewrite ztake_nonpos, zdrop_nonpos by lia.
-    splits; try constructor; lia.
+    splits; try reflexivity; try assumption; try lia; try apply Forall2_nil.
   - inversion Hall as [|? ? Hc Ht]; subst. cbn [brs_run].
     destruct (brs_read_len_step s c Hcd Hc Hr Hw) as (s1 & E & Hcd1 & _ & Hrem1 & Hdata1 & _).
     rewrite E.
@@ -205,7 +207,7 @@ Proof.
     assert (Hsplit : n = n1 + Z.min (zsum t) (b_remain s1)) by (unfold n, n1 in *; lia).
     unfold outs, rets in *. cbn [map concat fst snd zsum].
     splits.
-    + rewrite Ho, Hdata1, Hsplit. rewrite ztake_add by lia. reflexivity.
+    + rewrite Hsplit, ztake_add by lia. rewrite Ho, Hdata1. reflexivity.
     + rewrite Hs. lia.
     + constructor; [|exact Hf]. rewrite zlen_ztake; [reflexivity|]. lia.
     + exact Hcd2.
@@ -233,11 +235,11 @@ Proof.
   assert (Hcd : b_cd (brs_init partial n ps err) = false).
   { cbn. destruct (Z.eqb_spec n MAX64); [lia|reflexivity]. }
   pose proof (brs_run_len (brs_init partial n ps err) counts Hcd Hall) as H.
-  cbn [brs_init b_remain] in H. unfold brs_data at 1 in H. cbn [b_partial b_ps] in H.
+  unfold brs_data in H. cbn [brs_init b_remain b_partial b_ps] in H.
   specialize (H ltac:(lia) ltac:(unfold MAX64, W64 in *; lia)).
   destruct (brs_run (brs_init partial n ps err) counts) as [l s'].
   destruct H as (Ho & Hs & Hf & Hcd' & Hrem & Hdata).
-  unfold brs_data at 1 in Ho. unfold brs_data at 2 in Hdata. cbn [brs_init b_partial b_ps] in *.
+  fold (brs_data s') in Hdata.
   pose proof (zsum_nonneg counts Hall) as Hsum.
   splits.
   - rewrite Ho. unfold body. destruct (Z.min_spec (zsum counts) n) as [[? ->]|[? ->]].
@@ -261,10 +263,11 @@ Lemma brs_read_cd_step s count :
     /\ b_cd s' = true /\ b_err s' = false
     /\ brs_data s' = zdrop n (brs_data s).
 Proof.
-  intros Hcd Herr Hc n. unfold brs_read. rewrite Hcd, Herr. cbn [negb andb].
+  intros Hcd Herr Hc n. subst n. unfold brs_data. rewrite zlen_app.
+  set (n := Z.min count (zlen (b_partial s) + zlen (concat (b_ps s)))).
+  unfold brs_read. rewrite Hcd, Herr. cbn [negb andb].
   pose proof (zlen_nonneg (b_partial s)) as Hp.
   pose proof (zlen_nonneg (concat (b_ps s))) as Hq.
-  unfold brs_data in *. rewrite zlen_app in n.
   set (rfr := Z.min count (zlen (b_partial s))).
   destruct (Z.ltb_spec 0 (count - rfr)) as [Hpos|Hzero].
   - assert (Hfull : rfr = zlen (b_partial s)) by (unfold rfr in *; lia).
@@ -272,24 +275,24 @@ Proof.
     + destruct (sk_read_enough (b_ps s) false (count - rfr)) as (ps' & E & C); [lia|].
       rewrite E. destruct (Z.ltb_spec (count - rfr) 0); [lia|].
       assert (Hn : n = count) by (unfold n, total_len in *; lia).
-      eexists. split; [|cbn [b_cd b_err b_partial b_ps]; splits].
-      * f_equal. f_equal; [lia|]. rewrite Hn, ztake_app_ge by lia.
-        rewrite Hfull, ztake_all by lia. reflexivity.
+      eexists. split.
+      { f_equal. f_equal; [lia|]. rewrite Hn, ztake_app_ge by lia. rewrite Hfull, ztake_all by lia. reflexivity. }
+      cbn [b_cd b_err b_partial b_ps]. splits; try reflexivity.
       * rewrite Hfull, zdrop_all by lia. cbn [app]. rewrite C, Hn, zdrop_app_ge by lia.
         f_equal. lia.
     + destruct (sk_read_short (b_ps s) (count - rfr)) as (ps' & E & C); [lia|].
       rewrite E. pose proof (zlen_nonneg (concat (b_ps s))).
       destruct (Z.ltb_spec (total_len (b_ps s)) 0); [unfold total_len in *; lia|].
       assert (Hn : n = zlen (b_partial s) + zlen (concat (b_ps s))) by (unfold n, total_len in *; lia).
-      eexists. split; [|cbn [b_cd b_err b_partial b_ps]; splits].
-      * f_equal. f_equal; [unfold total_len; lia|].
-        rewrite Hfull, (ztake_all (zlen (b_partial s))) by lia.
-        rewrite Hn, ztake_all by (rewrite zlen_app; lia). reflexivity.
+      eexists. split.
+      { f_equal. f_equal; [unfold total_len; lia|]. rewrite Hfull, (ztake_all (zlen (b_partial s))) by lia. rewrite Hn, ztake_all by (rewrite zlen_app; lia). reflexivity. }
+      cbn [b_cd b_err b_partial b_ps]. splits; try reflexivity.
       * rewrite Hfull, zdrop_all by lia. rewrite C, Hn, zdrop_all by (rewrite zlen_app; lia). reflexivity.
   - assert (Hrn : rfr = count) by (unfold rfr in *; lia).
     assert (Hn : n = count) by (unfold n, rfr in *; lia).
-    eexists. split; [|cbn [b_cd b_err b_partial b_ps]; splits].
-    + rewrite Hrn, Hn. f_equal. f_equal. rewrite ztake_app_le by (unfold rfr in *; lia). reflexivity.
+    eexists. split.
+    { rewrite Hrn, Hn. f_equal. f_equal. rewrite ztake_app_le by (unfold rfr in *; lia). reflexivity. }
+    cbn [b_cd b_err b_partial b_ps]. splits; try reflexivity.
     + rewrite Hrn, Hn. rewrite zdrop_app_le by (unfold rfr in *; lia). reflexivity.
 Qed.
 
@@ -304,7 +307,7 @@ Lemma brs_run_cd s : forall counts,
 Proof.
   intros counts. revert s. induction counts as [|c t IH]; intros s Hcd Herr Hall.
   - cbn. pose proof (zlen_nonneg (brs_data s)). rewrite Z.min_l by lia.
-    rewrite ztake_nonpos, zdrop_nonpos by lia. splits; try constructor; assumption.
+    rewrite ztake_nonpos, zdrop_nonpos by lia. splits; try reflexivity; try assumption; try apply Forall2_nil.
   - inversion Hall as [|? ? Hc Ht]; subst. cbn [brs_run].
     destruct (brs_read_cd_step s c Hcd Herr Hc) as (s1 & E & Hcd1 & Herr1 & Hdata1).
     rewrite E. set (n1 := Z.min c (zlen (brs_data s))) in *.
@@ -318,11 +321,11 @@ Proof.
     assert (Hsplit : n = n1 + Z.min (zsum t) (zlen (brs_data s1))) by (unfold n, n1 in *; lia).
     unfold outs, rets in *. cbn [map concat fst snd].
     splits.
-    + rewrite Ho, Hdata1, Hsplit. rewrite ztake_add by (unfold n1; lia). reflexivity.
+    + rewrite Hsplit, ztake_add by (unfold n1; lia). rewrite Ho, Hdata1. reflexivity.
     + constructor; [|exact Hf]. rewrite zlen_ztake; [reflexivity|]. unfold n1. lia.
     + exact Hcd2.
     + exact Herr2.
-    + rewrite Hdata2, Hdata1, zdrop_zdrop by (unfold n1; lia). f_equal. lia.
+    + rewrite Hdata2, Hl1, Hdata1, zdrop_zdrop by (unfold n1; lia). f_equal. unfold n, n1 in *. lia.
 Qed.
 
 (* Close-delimited framing (body_remain = SIZE_MAX): for every partial body, every
@@ -355,4 +358,54 @@ Proof.
     { rewrite Hdata, Z.min_r, zdrop_all by lia. reflexivity. }
     rewrite Hz in E. rewrite Z.min_r in E by lia. rewrite ztake_nonpos in E by lia.
     exists s''. exact E.
+Qed.
+
+(* ---------------------------------------------- chunked writer: wire format -- *)
+Definition chunk_wire (data : bytes) : bytes := to_hex (zlen data) ++ [13; 10] ++ data ++ [13; 10].
+Fixpoint chunks_wire (ws : list bytes) : bytes :=
+  match ws with [] => [] | w :: t => chunk_wire w ++ chunks_wire t end.
+Fixpoint cws_run (s : cws) (ws : list bytes) : list Z * cws :=
+  match ws with
+  | [] => ([], s)
+  | w :: t => let '(r, s1) := cws_write s w in
+              let '(l, s2) := cws_run s1 t in (r :: l, s2)
+  end.
+
+Lemma cws_write_ok s data :
+  zlen (chunk_wire data) <= w_budget (cw_sock s) ->
+  cws_write s data = (zlen data,
+                      mkCws (cw_finish s) (mkW (w_out (cw_sock s) ++ chunk_wire data)
+                                               (w_budget (cw_sock s) - zlen (chunk_wire data)))).
+Proof.
+  intros H. unfold cws_write, wk_write. fold (chunk_wire data).
+  rewrite Z.min_l by lia. rewrite Z.eqb_refl. cbn [negb].
+  rewrite ztake_all by lia. reflexivity.
+Qed.
+
+(* ChunkedBodyWriteStream: with a peer that accepts everything, any sequence of writes
+   followed by close() puts exactly  hex(len) CRLF data CRLF  per write and the terminator
+   "0 CRLF CRLF" on the wire; every write returns its count. *)
+Lemma chunked_writer_wire_proof : forall (ws : list bytes) (s : cws),
+  cw_finish s = false ->
+  zlen (chunks_wire ws) + 5 <= w_budget (cw_sock s) ->
+  let '(l, s1) := cws_run s ws in
+  let '(r, s2) := cws_close s1 in
+  l = map zlen ws /\ r = 0 /\ cw_finish s2 = true
+  /\ w_out (cw_sock s2) = w_out (cw_sock s) ++ chunks_wire ws ++ [48; 13; 10; 13; 10].
+Proof.
+  induction ws as [|w t IH]; intros s Hf Hb.
+  - cbn [cws_run chunks_wire map]. unfold cws_close. rewrite Hf.
+    rewrite cws_write_ok by (cbn in *; lia). cbn [zlen length Z.of_nat Z.eqb cw_sock cw_finish w_out].
+    splits; try reflexivity.
+  - cbn [cws_run chunks_wire map] in *. rewrite zlen_app in Hb.
+    pose proof (zlen_nonneg (chunks_wire t)) as Ht.
+    rewrite cws_write_ok by lia.
+    set (s1 := mkCws (cw_finish s) _).
+    specialize (IH s1 Hf). cbn [s1 cw_sock w_budget w_out] in IH.
+    specialize (IH ltac:(lia)).
+    destruct (cws_run s1 t) as [l s2]. destruct (cws_close s2) as [r s3].
+    destruct IH as (Hl & Hr & Hf3 & Hout).
+    splits; try assumption.
+    + rewrite Hl. reflexivity.
+    + rewrite Hout, <- !app_assoc. reflexivity.
 Qed.
